@@ -592,6 +592,9 @@ nodesLoop:
 					if !t.IsType() {
 						panic(tc.errorf(cas, "%v (type %s) is not a type", expr, t.StringWithNumber(true)))
 					}
+					if swt := tc.compilation.typeInfos[ta.Expr]; swt != nil && t.Type.Kind() != reflect.Interface && !types.Implements(t.Type, swt.Type) {
+						panic(tc.errorf(cas, "impossible type switch case: %s", tc.errTypeAssertion(t.Type, swt.Type)))
+					}
 					if name != "" && len(cas.Expressions) == 1 {
 						ti := &typeInfo{Type: t.Type, Properties: propertyAddressable}
 						ident := ast.NewIdentifier(cas.Expressions[0].Pos(), name)
